@@ -502,8 +502,8 @@ func rename(a *ref.ASpec, mapping map[string]string) *ref.ASpec {
 
 func Run(cfg fw.Config, rec *fw.Rec) {
 	log.SetOutput(io.Discard)
-	rec.Rule = "generated specs (native and source actions, guards, missing / @variable / empty targets, orphans, terminal nodes, empty and absent branch lists, self-loops, parallel branches to one target; with and without the automatic error node) in two strata judged separately: identifier-like node names, and hostile names (spaces, quotes, ->, <, >, &, newlines, unicode, keywords); tools.Analyze is compared with a reference graph analysis, tools.Dot output is tokenised as DOT (ids, quoted strings, nestable HTML strings, attribute lists, ->) and tools.Mermaid output as a flowchart, and node / edge multisets are compared with the spec graph; non-trivial = spec with >= 2 nodes and >= 1 branch; distinct by spec"
-	rec.Required = []string{"plain_analysis_ok", "plain_dot_ok", "plain_mermaid_ok", "native_action_rendered", "missing_target_rendered", "variable_target_rendered", "parallel_branches", "self_loop"}
+	rec.Rule = "generated specs (native and source actions, guards, missing / @variable / empty targets, orphans, terminal nodes, empty and absent branch lists, self-loops, parallel branches to one target; with and without the automatic error node) in two strata judged separately: identifier-like node names, and hostile names (spaces, quotes, ->, <, >, &, newlines, unicode, keywords); tools.Analyze is compared with a reference graph analysis, tools.Dot output is tokenised as DOT (ids, quoted strings, nestable HTML strings, attribute lists, ->) and tools.Mermaid output as a flowchart, and node / edge multisets are compared with the spec graph; tools.RenderSpecPage must return without error with one table row per node and per branch; non-trivial = spec with >= 2 nodes and >= 1 branch; distinct by spec"
+	rec.Required = []string{"plain_analysis_ok", "plain_dot_ok", "plain_mermaid_ok", "plain_html_ok", "native_action_rendered", "missing_target_rendered", "variable_target_rendered", "parallel_branches", "self_loop"}
 	rec.Assume = []string{"DOT and Mermaid subsets as emitted by the tools (the tokenizers accept what Graphviz / Mermaid accept for these constructs)", "the hostile-name stratum is judged separately so a finding there cannot mask the plain stratum"}
 	n := cfg.Pick(6000, 1000000)
 	fw.Parallel(cfg.Workers, n, func(w, i int) {
@@ -606,6 +606,32 @@ func Run(cfg fw.Config, rec *fw.Rec) {
 				ok = false
 			} else {
 				rec.Bucket(stratum + "_mermaid_ok")
+			}
+		}
+		// the HTML page (tools.RenderSpecPage): total, one table row per node, one per branch
+		var hb bytes.Buffer
+		var herr error
+		if rec.Guard("C20:"+stratum+":html", replay, func() { herr = tools.RenderSpecPage(spec, &hb, nil, i%2 == 0) }) {
+			ok = false
+		} else {
+			rec.Eval(1)
+			nb := 0
+			for _, n := range spec.Nodes {
+				if n.Branches != nil {
+					nb += len(n.Branches.Branches)
+				}
+			}
+			page := hb.String()
+			gotN, gotB := strings.Count(page, `<tr class="node">`), strings.Count(page, `<div class="branchNum">`)
+			switch {
+			case herr != nil:
+				rec.Violation("C20:"+stratum+":html-error", "RenderSpecPage returned an error: "+herr.Error(), replay)
+				ok = false
+			case gotN != len(spec.Nodes) || gotB != nb:
+				rec.Violation("C20:"+stratum+":html-rows-differ", fmt.Sprintf("the HTML page has %d node rows and %d branch rows; the spec has %d nodes and %d branches", gotN, gotB, len(spec.Nodes), nb), replay)
+				ok = false
+			default:
+				rec.Bucket(stratum + "_html_ok")
 			}
 		}
 		if ok {
